@@ -25,7 +25,7 @@ from ..core import Verdict
 
 IDS = ("C18",)
 NOW = datetime(2024, 1, 1, tzinfo=timezone.utc)
-TOL = 1e-7  # percent; the code snaps values isclose() to 100 % (rel 1e-9 of 100)
+TOL = 5e-7  # percent; the code snaps values isclose() to 100 % (rel_tol 1e-9 of 100 = 1e-7), so results may differ by up to 1e-7
 
 BUDGET = {"quick": 6000, "thorough": 60000}
 SIZE_BOUNDS = {
